@@ -53,7 +53,7 @@ func (a *Array) size() int {
 
 func (a *Array) get(i int) Val {
 	if a.isByte {
-		if a.st != nil && a.st[i] != nil {
+		if i < len(a.st) && a.st[i] != nil {
 			return Int{t: a.st[i], w: 8}
 		}
 		return Int{c: uint64(a.b[i]), w: 8}
@@ -61,18 +61,41 @@ func (a *Array) get(i int) Val {
 	return a.cells[i]
 }
 
+// growSt makes st cover indices < n (st is only as long as the highest
+// symbolic index requires; beyond it bytes are concrete).
+func (a *Array) growSt(n int) {
+	if n <= len(a.st) {
+		return
+	}
+	if n <= cap(a.st) {
+		a.st = a.st[:n]
+		return
+	}
+	c := 2 * cap(a.st)
+	if c < n {
+		c = n
+	}
+	if c < 32 {
+		c = 32
+	}
+	if c > len(a.b) {
+		c = len(a.b)
+	}
+	ns := make([]*Term, n, c)
+	copy(ns, a.st)
+	a.st = ns
+}
+
 func (a *Array) set(i int, v Val) {
 	if a.isByte {
 		x := v.(Int)
 		if x.t != nil {
-			if a.st == nil {
-				a.st = make([]*Term, len(a.b))
-			}
+			a.growSt(i + 1)
 			a.st[i] = x.t
 			return
 		}
 		a.b[i] = byte(x.c)
-		if a.st != nil {
+		if i < len(a.st) {
 			a.st[i] = nil
 		}
 		return
@@ -82,11 +105,12 @@ func (a *Array) set(i int, v Val) {
 
 // hasSym reports whether any byte in [off,off+n) is symbolic.
 func (a *Array) hasSym(off, n int) bool {
-	if a.st == nil {
-		return false
+	end := off + n
+	if end > len(a.st) {
+		end = len(a.st)
 	}
-	for _, t := range a.st[off : off+n] {
-		if t != nil {
+	for i := off; i < end; i++ {
+		if a.st[i] != nil {
 			return true
 		}
 	}
@@ -99,20 +123,45 @@ func copyRange(dst *Array, doff int, src *Array, soff int, n int) {
 		return
 	}
 	if dst.isByte {
-		if src.st == nil && dst.st == nil {
-			copy(dst.b[doff:doff+n], src.b[soff:soff+n])
+		copy(dst.b[doff:doff+n], src.b[soff:soff+n])
+		// symbolic part of the source range: src.st[soff:min(soff+n,len(src.st))]
+		sEnd := soff + n
+		if sEnd > len(src.st) {
+			sEnd = len(src.st)
+		}
+		last := -1 // last symbolic position in the source range
+		for i := sEnd - 1; i >= soff; i-- {
+			if src.st[i] != nil {
+				last = i
+				break
+			}
+		}
+		if last < 0 {
+			// nothing symbolic: clear the destination's overrides in range
+			dEnd := doff + n
+			if dEnd > len(dst.st) {
+				dEnd = len(dst.st)
+			}
+			for i := doff; i < dEnd; i++ {
+				dst.st[i] = nil
+			}
 			return
 		}
-		if dst.st == nil {
-			dst.st = make([]*Term, len(dst.b))
-		}
-		copy(dst.b[doff:doff+n], src.b[soff:soff+n])
-		if src.st == nil {
-			for i := 0; i < n; i++ {
-				dst.st[doff+i] = nil
-			}
+		k := last - soff + 1 // number of leading positions that may be symbolic
+		if dst == src {
+			tmp := append([]*Term{}, src.st[soff:soff+k]...)
+			dst.growSt(doff + k)
+			copy(dst.st[doff:doff+k], tmp)
 		} else {
-			copy(dst.st[doff:doff+n], src.st[soff:soff+n])
+			dst.growSt(doff + k)
+			copy(dst.st[doff:doff+k], src.st[soff:soff+k])
+		}
+		dEnd := doff + n
+		if dEnd > len(dst.st) {
+			dEnd = len(dst.st)
+		}
+		for i := doff + k; i < dEnd; i++ {
+			dst.st[i] = nil
 		}
 		return
 	}
@@ -229,7 +278,7 @@ func copyVal(v Val) Val {
 		n := &Array{isByte: x.isByte}
 		if x.isByte {
 			n.b = append([]byte{}, x.b...)
-			if x.st != nil {
+			if len(x.st) > 0 {
 				n.st = append([]*Term{}, x.st...)
 			}
 		} else {
